@@ -131,7 +131,7 @@ void SeqPlan::normalize()
             o.form = 0;
         if (cfg.cont == Cont::tlru && o.kind == OpKind::insert_range && o.form == 2)
             o.form = 0;
-        if (o.form < 0 || o.form > 4)
+        if (o.form < 0 || o.form > 6 || (o.form >= 5 && o.kind != OpKind::find_fill))
             o.form = 0;
         if (o.kind == OpKind::find_range && o.form == 2)
             o.form = 0;
@@ -220,6 +220,25 @@ struct SeqRun
     // later checks of the focus property are still reached, otherwise the run is abandoned.
     // Returns true when the run must stop.
     bool fail(std::initializer_list<const char*> props, const char* check, const std::string& detail, bool adoptable = false)
+    {
+        return fail(std::vector<const char*>(props), check, detail, adoptable);
+    }
+    // Properties broken when live entries vanish without an erase or a legal eviction: the given
+    // ones, plus C05 in TTL containers (the entry is no longer returned before its deadline) and
+    // C02 where size() now undercounts the keys that are live by the rules.
+    std::vector<const char*> loss_props(std::initializer_list<const char*> base)
+    {
+        std::vector<const char*> v(base);
+        if (is_ttl())
+        {
+            v.push_back("C05");
+            ++st.calls;
+            if ((int64_t)S->size() < (int64_t)live.size())
+                v.push_back("C02");
+        }
+        return v;
+    }
+    bool fail(const std::vector<const char*>& props, const char* check, const std::string& detail, bool adoptable = false)
     {
         if (stop)
             return true;
@@ -941,6 +960,10 @@ struct SeqRun
                         fail({"C03", "C15"}, "retention.full_insert_victims",
                              "insert of a new key into a full cache removed " + std::to_string(missing.size()) +
                                  " live entries " + kstr(missing) + " (exactly one expected)", true);
+                    else if (missing.size() > 1)
+                        fail(loss_props({"C03"}), "retention.full_insert_victims",
+                             "insert of a new key into a full cache removed " + std::to_string(missing.size()) +
+                                 " live entries " + kstr(missing) + " (exactly one expected)", true);
                     else
                         fail({"C03"}, "retention.full_insert_victims",
                              "insert of a new key into a full cache removed " + std::to_string(missing.size()) +
@@ -963,7 +986,7 @@ struct SeqRun
         {
             if (!missing.empty())
             {
-                fail({"C03"}, "retention.lost_on_nonevicting_insert",
+                fail(loss_props({"C03"}), "retention.lost_on_nonevicting_insert",
                      std::string(created ? "insert into a non-full cache" : updated ? "update" : "rejected insert") +
                          " removed live entries " + kstr(missing), true);
                 adopt_missing();
@@ -1111,7 +1134,7 @@ struct SeqRun
         eval("C03");
         if (!missing.empty())
         {
-            fail({"C03"}, "retention.lost_on_erase", "erase(" + std::to_string(k) + ") removed other live entries " + kstr(missing), true);
+            fail(loss_props({"C03"}), "retention.lost_on_erase", "erase(" + std::to_string(k) + ") removed other live entries " + kstr(missing), true);
             for (int m : missing)
                 if (live.count(m))
                     remove_live(m, Gone::evicted);
@@ -1457,8 +1480,16 @@ struct SeqRun
             eval("C05");
             if (!missing.empty())
             {
-                fail({"C05"}, "ttl.expired_early",
-                     "keys " + kstr(missing) + " vanished when only the clock moved (now " + std::to_string(now) + ")", true);
+                {
+                    // in ut_map / ut_set size() must equal the number of live keys after every call (the probe
+                    // just made calls): an early expiry shows there as an undercount as well
+                    std::vector<const char*> pr = {"C05"};
+                    ++st.calls;
+                    if ((int64_t)S->size() < (int64_t)live.size())
+                        pr.push_back("C02");
+                    fail(pr, "ttl.expired_early",
+                         "keys " + kstr(missing) + " vanished when only the clock moved (now " + std::to_string(now) + ")", true);
+                }
                 for (int m : missing)
                     if (live.count(m))
                         remove_live(m, Gone::expired);
@@ -1510,7 +1541,11 @@ struct SeqRun
                     st.bump("probe.range_longer_than_capacity");
                 if (rr != cat)
                 {
-                    if (fail({"C18"}, "range.result",
+                    // insert_range's count is also what C09 speaks about ("reports exactly the writes that took effect")
+                    std::vector<const char*> pr = {"C18"};
+                    if (op.kind == OpKind::insert_range)
+                        pr.push_back("C09");
+                    if (fail(pr, "range.result",
                              std::string(op_name(op.kind)) + " returned " + result_str(rr) +
                                  " but the same single operations in order return " + result_str(cat), true))
                         return;
@@ -1629,9 +1664,9 @@ struct SeqRun
         if (!missing.empty())
         {
             if (op.kind == OpKind::clean)
-                fail({"C17", "C03"}, "clean.removed_live", "clean_expired_values() removed live entries " + kstr(missing), true);
+                fail(loss_props({"C17", "C03"}), "clean.removed_live", "clean_expired_values() removed live entries " + kstr(missing), true);
             else
-                fail({"C03"}, "retention.lost", std::string(op_name(op.kind)) + " removed live entries " + kstr(missing), true);
+                fail(loss_props({"C03"}), "retention.lost", std::string(op_name(op.kind)) + " removed live entries " + kstr(missing), true);
             for (int m : missing)
                 if (live.count(m))
                     remove_live(m, Gone::evicted);
